@@ -19,6 +19,13 @@ def run(tier):
             cfgs.append((2, n, n % 5, n % 3, 2, 5))
     for th, n, ct, ht, buf, sl in cfgs:
         e2e_ob(r, 'format-T%d-len%d-c%d-h%d-chunk%d-seed%d' % (th, n, ct, ht, 16 * buf, sl), th, n, ct, ht, buf, extra=['SEEDLEN=%d' % sl], timeout=900 if tier == 'quick' else 3600)
+    e2e_ob(r, 'format-T2-len20-c1-h0-chunk16-seed-with-high-bytes', 2, 20, 1, 0, 1, extra=['SEEDLEN=13', 'SEEDFIX'], timeout=900 if tier == 'quick' else 3600)
+    # boundary bytes (see C01): bytes at / before chunk boundaries concrete 0xFF / 0x00 / 0x0A so that a read position that depends on a byte value stays concrete
+    for th, n, ct, ht, buf, fixes in ((1, 33, 1, 0, 1, ((16, 255), (32, 255), (15, 0))), (2, 49, 3, 2, 1, ((16, 0), (32, 10), (48, 255)))):
+        ex = ['SEEDLEN=5']
+        for i, (o, v) in enumerate(fixes):
+            ex += ['FIX%d_OFF=%d' % (i + 1, o), 'FIX%d_VAL=%d' % (i + 1, v)]
+        e2e_ob(r, 'format-boundary-bytes-T%d-len%d-c%d-h%d-chunk%d-%s' % (th, n, ct, ht, 16 * buf, '_'.join('%d=%02x' % f for f in fixes)), th, n, ct, ht, buf, extra=ex, timeout=900 if tier == 'quick' else 3600)
     # "enciphered ... in the selected NIST mode": the five real stream objects, one inductive step each (the obligations of C10)
     c10.mode_obligations(r, tier, prefix='mode-')
     r.bounds = ['%d configurations of (T<=3, plaintext length, cipher mode 0..4, hash mode 0..2, chunk 16/32 bytes, seed length); contents, key and seed symbolic' % len(cfgs)]
